@@ -128,3 +128,30 @@ type Plan struct {
 func (p *Plan) clone() *Plan {
 	return cloneJSON(p)
 }
+
+// normalize makes "set but empty" byte fields survive a JSON round trip (replay files, shrinking): the Has* flags
+// are derived from non-nil slices, and nil slices whose flag is set become empty ones. Idempotent.
+func (p *Plan) normalize() {
+	for i := range p.RPCs {
+		p.RPCs[i].normalize()
+	}
+}
+
+func (r *RPCPlan) normalize() {
+	fix := func(b *[]byte, has *bool) {
+		if *b != nil {
+			*has = true
+		} else if *has {
+			*b = []byte{}
+		}
+	}
+	fix(&r.Client.RawBody, &r.Client.HasRawBody)
+	for i := range r.Client.Msgs {
+		fix(&r.Client.Msgs[i].RawPayload, &r.Client.Msgs[i].HasRaw)
+	}
+	fix(&r.Backend.Resp.RawBody, &r.Backend.Resp.HasRawBody)
+	fix(&r.Backend.Resp.EndRaw, &r.Backend.Resp.HasEndRaw)
+	for i := range r.Backend.Resp.Msgs {
+		fix(&r.Backend.Resp.Msgs[i].RawPayload, &r.Backend.Resp.Msgs[i].HasRaw)
+	}
+}
